@@ -45,7 +45,7 @@ func MapSeam(ov *File, dir string) error {
 	if strings.Count(src, a) != 1 {
 		return fmt.Errorf("map seam: pattern %q not found exactly once in %s", a, p)
 	}
-	src = strings.Replace(src, a, a+"\tif verifMapIter != 0 {\n\t\tr = verifMapIter - 1\n\t}\n", 1)
+	src = strings.Replace(src, a, a+"\tif verifMapIter != 0 {\n\t\tr = verifMapIter - 1\n\t\tverifMapCount++\n\t\tif verifMapCount == verifMapDevAt {\n\t\t\tr = verifMapDevVal\n\t\t}\n\t}\n", 1)
 	re := regexp.MustCompile(`\n(\t+)h\.hash0 = uint32\(rand\(\)\)\n`)
 	if len(re.FindAllString(src, -1)) < 2 {
 		return fmt.Errorf("map seam: hash0 pattern not found in %s", p)
@@ -55,8 +55,19 @@ func MapSeam(ov *File, dir string) error {
 // verifMapIter, when non-zero, replaces the random iteration start (value-1) and the per-map hash seed.
 var verifMapIter uintptr
 
+// verifMapCount counts the iterations begun since the last verifSetMapIter; the verifMapDevAt-th of them (1-based,
+// 0 = none) starts at verifMapDevVal instead: one deviation from the uniform start, for deviation-bounded enumeration.
+// Plain variables: the seam is meant for single-goroutine use.
+var verifMapCount, verifMapDevAt, verifMapDevVal uintptr
+
 //go:linkname verifSetMapIter
-func verifSetMapIter(v uintptr) { verifMapIter = v }
+func verifSetMapIter(v uintptr) { verifMapIter, verifMapCount, verifMapDevAt = v, 0, 0 }
+
+//go:linkname verifSetMapDev
+func verifSetMapDev(at, val uintptr) { verifMapDevAt, verifMapDevVal = at, val }
+
+//go:linkname verifMapIterCount
+func verifMapIterCount() uintptr { return verifMapCount }
 `
 	if err := os.MkdirAll(dir, 0o755); err != nil {
 		return err
@@ -69,6 +80,23 @@ func verifSetMapIter(v uintptr) { verifMapIter = v }
 		ov.Replace = map[string]string{}
 	}
 	ov.Replace[p] = out
+	// maps that do not escape get their hash seed from compiler-generated code calling runtime.rand32
+	pr := filepath.Join(gr, "src", "runtime", "rand.go")
+	rb, err := os.ReadFile(pr)
+	if err != nil {
+		return fmt.Errorf("map seam: %w", err)
+	}
+	rsrc := string(rb)
+	ra := "func rand32() uint32 {\n"
+	if strings.Count(rsrc, ra) != 1 {
+		return fmt.Errorf("map seam: pattern %q not found exactly once in %s", ra, pr)
+	}
+	rsrc = strings.Replace(rsrc, ra, ra+"\tif verifMapIter != 0 {\n\t\treturn 0x1f2e3d4c\n\t}\n", 1)
+	rout := filepath.Join(dir, "runtime_rand.go.txt")
+	if err := os.WriteFile(rout, []byte(rsrc), 0o644); err != nil {
+		return err
+	}
+	ov.Replace[pr] = rout
 	return nil
 }
 
